@@ -52,7 +52,7 @@ func runC08(c *Ctx, r *Report) {
 	importFoundation(c, r, "C08", "read-loop")
 	importFoundation(c, r, "C08", "netconf-framing")
 	importFoundation(c, r, "C08", "netconf-version")
-	r.Rule("C08/id-allocation", "the message-id counter is written only by the constructor (101) and by buildPayload (copy, then +1); every RPC entry point builds exactly one message per call", 14)
+	r.Rule("C08/id-allocation", "the message-id counter is written only by the constructor (101) and by buildPayload (copy, then +1); every RPC entry point builds exactly one message per call", 8)
 	r.Rule("C08/own-id", "sendRPC polls for the id of the message it serialised; getMessage looks up and deletes exactly its key; the reader files a reply under the id extracted from that buffer before clearing it", 4)
 	r.Rule("C08/echo-keeps-rest", "on recognising its echoed request the reader keeps everything after the first delimiter (split limit 2, element 1)", 1)
 	r.Rule("C08/echo-remainder-examined", "what remains in the buffer after the echo was trimmed off is tested for a complete message -- and for being an echo itself -- before the next read is appended", 2)
